@@ -14,7 +14,7 @@ K = dict(prec=["not", "and", "or"], paren=False, sep=1, orin=False, andin=False,
 
 def ls_dict(ls):
     d = {}
-    for k, key in (("cat", "category"), ("prod", "product"), ("svc", "service")):
+    for k, key in (("cat", "category"), ("prod", "product"), ("svc", "service"), ("def", "definition")):
         if ls[k]:
             d[key] = uncps(ls[k])
     return d
